@@ -2023,6 +2023,8 @@ fn int_const_strategy() -> impl Strategy<Value = IntConstCase> {
             2 => re("[0-7]{1,13}"),
             2 => re("[0-9A-F]{1,10}"),
             1 => re("[0-9A-Fa-f89]{0,6}"),
+            // neighbours of the digit ranges in the character table: / : @ G ` g
+            1 => re("[0-9A-F]{1,3}[/:@G`g][0-9A-Fa-f/:@G`g]{0,3}"),
             2 => proptest::sample::select(vec!["2147483647", "2147483648", "2147483650", "17777777777", "20000000000", "7FFFFFFF", "80000000", "FFFFFFFFF", "0", "00", "", "9", "G"]).prop_map(|s| s.to_string()),
         ],
         0u8..5,
